@@ -35,8 +35,9 @@ func TestMain(m *testing.M) {
 		return
 	}
 	run = vk.Start("C09", "exploration")
-	run.Rule("per (entry point, protocol state) an input stream indexed by i: first the small-scope systematic mutants of every well-formed sample built with the repo's own serialisers (truncation at every byte; every interesting 8/16-bit value in each of the first 12 bytes), then seeded mutants (bit flips, length-field tampering, truncation, duplication, splicing, random bytes; 0..2048 bytes); stateful handlers get samples that follow their current state (live session ids, last identifier, valid authenticator). non-trivial = distinct input that got past the entry point's framing (call returned nil / produced a reply or a state change / parser returned a non-empty result)")
+	const run0Rule = "per (entry point, protocol state) an input stream indexed by i: first the small-scope systematic mutants of every well-formed sample built with the repo's own serialisers (truncation at every byte; every interesting 8/16-bit value in each of the first 12 bytes), then seeded mutants (bit flips, length-field tampering, truncation, duplication, splicing, random bytes; 0..2048 bytes); stateful handlers get samples that follow their current state (live session ids, last identifier, valid authenticator). non-trivial = distinct input that got past the entry point's framing (call returned nil / produced a reply or a state change / parser returned a non-empty result)"
 	run.Assume("wall-clock is used only by the 10 s per-input hang watchdog (a firing is a candidate, confirmed only if it reproduces in a fresh process) and by the scaling probe, which reads the process CPU clock instead (min of 9 repetitions at n,2n,4n bytes with the collector off; flagged only if both doublings cost >= 6x and the largest run takes >= 200us of CPU, and only if a second probe in a fresh process flags it again)")
+	run.Rule(run0Rule + " || second pass (TestStatefulHammer, entries gated:*): per (gated handler, state) the real object is driven into the state by the legitimate sequence of calls/packets, the identifiers it then expects (Configure-Request identifier and options, CHAP Challenge identifier, session id and station address, offered address and server identifier, leased IPv6 address / prefix and server DUID) are read from the packets it emitted, and it gets input i of a stream: first the shuffled small-scope list of structure-aware hostile packets that carry those identifiers (every code; every option with every value length 0..len+2, every dishonest option length, repeated options, the option list cut at every byte, packet length field short/long/zero, up to the size bound; nested option lists one level deep), then seeded structural mutants (1-3 of: short/long/empty value, lying length, cut, repeat, max-size, drop, swap, unknown type, nested damage) and byte-level mutants of valid packets; 15% of the seeded packets get a neighbouring/random identifier. After each input a legitimate exchange is delivered to the same object (must not panic or hang). gate-passed = the handler emitted a packet, changed state / lease / session table, or returned an error from beyond the framing check; gate-rejected = no observable effect; framing-rejected = refused by the length/header check (or the wire parser) in front of the handler. non-trivial = distinct gate-passed input")
 	run.Assume("a panic is attributed to bng when the innermost non-runtime, non-stdlib, non-third-party frame of its stack is a bng function; panics raised inside the harness or inside third-party parsers called by the harness are reported as observations, not violations")
 	code := m.Run()
 	ec := run.Finish()
@@ -286,6 +287,7 @@ func (a *agg) merge(e *entry, state string, from int, r *result) {
 // runJob runs one chunk, resuming after every process death.
 func runJob(a *agg, jb job, fatalBudget *int64) {
 	from := jb.from
+	hangs := 0
 	for from < jb.to || jb.scale {
 		sp := spec{Entry: jb.e.name, State: jb.state, From: from, To: jb.to, Scale: jb.scale}
 		res, j, stderr, werr := runChild(sp)
@@ -335,8 +337,12 @@ func runJob(a *agg, jb job, fatalBudget *int64) {
 		if jb.scale {
 			return
 		}
-		if kind == "hang" && j.Idx+1 < jb.to {
-			// every further hang would cost another watchdog period: one witness per chunk is enough
+		if kind == "hang" {
+			hangs++
+		}
+		if kind == "hang" && hangs >= 2 && j.Idx+1 < jb.to {
+			// every further hang would cost another watchdog period: two witnesses per chunk are enough
+			// (the first one may be a stall of an overloaded machine: the stream goes on behind it)
 			run.Count("inputs_not_executed_after_hang/"+jb.e.name, jb.to-j.Idx-1)
 			return
 		}
@@ -362,6 +368,7 @@ func TestHammer(t *testing.T) { hammer(t, entries(), "") }
 // candidates; pfx distinguishes the evidence keys of the second (stateful) pass.
 func hammer(t *testing.T, es []*entry, pfx string) {
 	var err error
+	seq0 := atomic.LoadInt64(&childSeq)
 	base := os.Getenv("VERIF_BUILD")
 	if base == "" {
 		base = os.TempDir()
@@ -385,7 +392,7 @@ func hammer(t *testing.T, es []*entry, pfx string) {
 		if len(states) == 0 {
 			states = []string{""}
 		}
-		total := run.Pick(e.quick, e.thorough)
+		total := e.total(run.Thorough())
 		chunk := e.chunk
 		if chunk == 0 {
 			chunk = 2500
@@ -445,7 +452,7 @@ func hammer(t *testing.T, es []*entry, pfx string) {
 
 	judge(t, a)
 	run.Extra(pfx+"entry_points", len(budgets))
-	run.Extra(pfx+"child_processes", atomic.LoadInt64(&childSeq))
+	run.Extra(pfx+"child_processes", atomic.LoadInt64(&childSeq)-seq0)
 	mc := map[string]float64{}
 	for k, v := range a.maxCall {
 		mc[k] = float64(v) / 1e3
@@ -469,7 +476,7 @@ func hammer(t *testing.T, es []*entry, pfx string) {
 	}
 	if only == "" {
 		for _, e := range es {
-			run.Floor("inputs/"+e.name, int64(run.Pick(e.quick, e.thorough)/10))
+			run.Floor("inputs/"+e.name, int64(e.total(run.Thorough())/10))
 			if e.gateFloor != nil {
 				// a run that never reaches the guarded code of a gated handler is inconclusive
 				run.Floor("gate_passed/"+e.name, int64(e.gateFloor(run.Thorough())))
